@@ -554,6 +554,19 @@ fn scenario(rng: &mut StdRng, sc: usize, out: Box<dyn std::io::Write>, kv: &Hash
                     .build();
                 (Proto::Lc, "resealed:SendLastStateProof".into(), packed::LightClientMessage::new_builder().set(c).build().as_slice().to_vec())
             }
+            95..=96 => {
+                // well-formed filter-protocol messages with EMPTY vectors at the position the client expects
+                let dump = sim.client().peers.verif_dump();
+                let p = env.peers[i].idx;
+                let cps_next = dump.peers.iter().find(|(q, _)| *q == p).map(|(_, d)| (d.check_points.0 as u64 + d.check_points.1.len() as u64 - 1) * interval).unwrap_or(0);
+                let min_f = sim.client().storage.get_min_filtered_block_number();
+                let m: packed::BlockFilterMessage = match rng.gen_range(0..3) {
+                    0 => packed::BlockFilterMessage::new_builder().set(packed::BlockFilterCheckPoints::new_builder().start_number(cps_next.pack()).build()).build(),
+                    1 => packed::BlockFilterMessage::new_builder().set(packed::BlockFilterHashes::new_builder().start_number((min_f + 1).pack()).build()).build(),
+                    _ => packed::BlockFilterMessage::new_builder().set(packed::BlockFilters::new_builder().start_number((min_f + 1).pack()).build()).build(),
+                };
+                (Proto::Filter, "resealed:empty-vectors".into(), m.as_slice().to_vec())
+            }
             _ => {
                 let len = rng.gen_range(0..80);
                 let mut b = vec![0u8; len];
